@@ -26,6 +26,12 @@ func init() {
 const mz = "mod/modzip."
 
 func checkC15(c *Ctx) {
+	// errcheck-style baseline: a newly discarded error in the package is a dropped protocol/validation step
+	c.checkErrorDiscipline("errors.no-new-dropped-error", "mod/modzip", map[string]string{
+		"Unzip|os.ReadDir": "a directory that cannot be listed is treated as empty; creation then fails with O_EXCL if it is not",
+		"Unzip|os.(*File).Close": "closing on an error path (the error already being returned)",
+		"Unzip|io.Closer.Close": "closing the zip entry reader after the copy (read side)",
+	})
 	c15Unzip(c)
 	c15Checker(c, c.fn("mod/modzip", "CheckZip"), true)
 	c15Checker(c, c.fn("mod/modzip", "checkFiles"), false)
